@@ -75,6 +75,13 @@ T = {
             'fault_enumeration', '4/C13',
             'All 256 workchains x id patterns x 9 renderings round-trip with flags; for sampled addresses all 48x63 substitutions are rejected.',
             'R6 CRC-16; substitution within the same 64-symbol alphabet'),
+    'C14': ('reference-model monitor: independent .tl reader + TL binary codec (R5) beside TlSchemas.serialize/deserialize for every supported constructor, '
+            'registry compared id by id, round-trip metamorphic check in both auto_deserialize modes',
+            'exploration', '4/C14',
+            'All 740 supported constructors of the three bundled schema files (47 skipped with reason): flag subsets, width boundaries incl. # >= 2^31, strings/bytes '
+            'around the 253/254 and 4-byte padding boundaries up to 65540 bytes, multi-byte UTF-8, vectors of base and object types, polymorphic and nested objects; '
+            'bytes equal R5, parse returns the same value and consumes all bytes; BlockId/BlockIdExt conversions, equality and hashing.',
+            'R5 id rule validated on 4 well-known ids and pinned bytes; opaque payloads avoid registered ids'),
     'C17': ('reference-model monitor (independent block.tlb VmStack encoder) + M-SNAP on caller values + double-serialisation metamorphic check',
             'exploration', '4/C17',
             'Stacks over all value kinds, integer boundaries, tuples to length 255 / nesting 6, all ten continuation kinds with control data; library '
